@@ -668,7 +668,6 @@ class Monitor:
     def set_filter(self, keep):
         """keep: None (all lines) or {code: set of line numbers that are pre-emption points}."""
         self.keep = keep
-        sys.monitoring.restart_events()
 
     def add(self, func):
         code = func.__code__
@@ -703,7 +702,7 @@ class Monitor:
         if s is None:
             return None
         if self.keep is not None and line not in self.keep.get(code, ()):
-            return sys.monitoring.DISABLE
+            return None          # (never sys.monitoring.DISABLE: a filtered line costs a dictionary look-up, no more)
         t = s.by_ident.get(_thread.get_ident())
         if t is None:
             return None
@@ -711,12 +710,29 @@ class Monitor:
         return None
 
 
+def monitored_functions(with_pollers=True):
+    """The functions whose source lines are pre-emption points (found by name at run time)."""
+    import circuits.core.events as events
+    import circuits.core.helpers as helpers
+    import circuits.core.manager as manager
+    import circuits.core.pollers as pollers
+    M = manager.Manager
+    funcs = [M._fire, M._dispatcher, M.tick, M.run, M.stop, M._flush,
+             manager._EventQueue.append, manager._EventQueue.dispatchEvents,
+             events.generate_events.reduce_time_left,
+             helpers.FallBackGenerator._on_generate_events, helpers.FallBackGenerator.resume]
+    if with_pollers:
+        funcs += [pollers.BasePoller._on_generate_events, pollers.BasePoller.resume, pollers.BasePoller._read_ctrl,
+                  pollers.Select._generate_events, pollers.Poll._generate_events, pollers.Poll._process,
+                  pollers.EPoll._generate_events, pollers.EPoll._process]
+    return funcs
+
+
 @contextlib.contextmanager
 def installed(with_pollers=False):
     """Replace the module globals of circuits by the doubles and enable LINE
     monitoring on the functions C03 is about; restores everything on exit.
     Yields a namespace with .monitor, .stderr (the sink), .vos, .vselect."""
-    import circuits.core.events as events
     import circuits.core.helpers as helpers
     import circuits.core.manager as manager
     import circuits.core.pollers as pollers
@@ -740,15 +756,7 @@ def installed(with_pollers=False):
         pollers.os = ns.vos
         pollers.select = ns.vselect
     mon = Monitor()
-    M = manager.Manager
-    funcs = [M._fire, M._dispatcher, M.tick, M.run, M.stop, M._flush,
-             manager._EventQueue.append, manager._EventQueue.dispatchEvents,
-             events.generate_events.reduce_time_left,
-             helpers.FallBackGenerator._on_generate_events, helpers.FallBackGenerator.resume]
-    if with_pollers:
-        funcs += [pollers.BasePoller._on_generate_events, pollers.BasePoller.resume, pollers.BasePoller._read_ctrl,
-                  pollers.Select._generate_events, pollers.Poll._generate_events, pollers.Poll._process,
-                  pollers.EPoll._generate_events, pollers.EPoll._process]
+    funcs = monitored_functions(with_pollers)
     for f in funcs:
         mon.add(f)
     mon.install()
